@@ -14,12 +14,12 @@ ELEM_REST = ["multiply", "true_divide", "floor_divide", "divide", "logical_and",
              "greater_equal", "equal", "not_equal", "logaddexp"]
 RED_REST = ["var", "std", "prod", "count_nonzero", "any", "all", "min", "logsumexp"]
 QUICK = [  # (ops, R, k)
-    (["id"], 3, 1), (["id"], 4, 1), (["id"], 2, 2),
-    (["sum", "max", "mean"], 3, 1), (RED_REST, 2, 1),
+    (["id"], 3, 1), (["id"], 4, 0), (["id"], 2, 2),
+    (["sum", "max"], 3, 1), (["mean"], 2, 1), (RED_REST, 2, 1),
     (["add"], 3, 0), (["add"], 2, 1), (["subtract"], 2, 0), (["where"], 2, 0), (["where"], 1, 1), (ELEM_REST, 2, 0),
     (["dot"], 3, 0), (["dot"], 2, 1),
     (["get_at"], 3, 0), (["get_at"], 2, 1),
-    (["set_at"], 3, 0), (["add_at"], 2, 1), (["subtract_at"], 2, 0),
+    (["set_at"], 2, 0), (["add_at"], 3, 0), (["add_at"], 1, 1), (["subtract_at"], 2, 0),
     (["flip", "argmax"], 3, 1), (["roll", "sort", "softmax", "argsort", "log_softmax", "argmin"], 2, 1),
 ]
 THOROUGH = [
